@@ -69,10 +69,13 @@ def set_at(v, path, nv):
     raise TypeError('set_at %r %r' % (v, path))
 
 
+_IGNORABLE_MUT = re.compile(r'.*(?:fmt::Formatter|Debug>::fmt|Display>::fmt|log::|__private_api|Arguments).*')
+
+
 class Exec:
     def __init__(self, mir, summaries=None, consts=None, loop_bound=8, opaque_calls_ok=False, max_paths=200000, budget_s=None):
         self.mir, self.S, self.consts, self.loop_bound = mir, dict(summaries or {}), dict(consts or {}), loop_bound
-        self.opaque_calls_ok = opaque_calls_ok
+        self.opaque_calls_ok = opaque_calls_ok; self.mut_opaque = set()
         self.solver = Solver()
         self.queries = 0; self.solver_s = 0.0; self.blocks_run = 0; self.paths = 0
         self.panics = []          # (pc, message, fn path)
@@ -470,6 +473,11 @@ class Exec:
             e2 = dict(env2); self.write(fid, e2, dst, ret)
             self.step(fn, fid, nxt, e2, pc2, visits, k, ctx)
         self.cur_ctx = ctx + '@' + nxt
+        # which arguments are `&mut` references (from the declared types of the operand locals): an unknown callee may write through them
+        self.cur_mut_args = []
+        for i, a in enumerate(split_top(args) if args.strip() else []):
+            m = re.match(r'(?:copy|move) (_\d+)$', a.strip())
+            if m and fn.locals.get(m.group(1), '').strip().startswith('&mut '): self.cur_mut_args.append(i)
         return self.call(callee, vals, env, pc, cont, where=fn.path, raw=raw_callee)
 
     def call(self, callee, vals, env, pc, cont, where='', raw=None):
@@ -546,6 +554,17 @@ class Exec:
             return self.run_fn(f, vals, env, pc, cont)
         if self.opaque_calls_ok or callee in self.S.get('$opaque_ok', ()):
             self.opaque_calls.add(callee)
+            # an unknown callee that gets `&mut` access to modelled state could change it: treating it as a no-op would be unsound
+            for i in getattr(self, 'cur_mut_args', []):
+                if i < len(vals) and isinstance(vals[i], Ref):
+                    try: tgt = self.deref(env, vals[i])
+                    except Exception: continue
+                    while isinstance(tgt, Ref):
+                        try: tgt = self.deref(env, tgt)
+                        except Exception: break
+                    if tgt is not None and not isinstance(tgt, (Opaque, Ref)) and tgt != () and not _IGNORABLE_MUT.match(callee):
+                        self.mut_opaque.add(callee)
+                        if os.environ.get('MIRSE_LAX_MUT') != '1': raise Inconclusive('no summary for %s, which gets mutable access to modelled state (in %s)' % (callee, where[-80:]))
             return cont(Opaque(callee), env, pc)
         raise Inconclusive('no summary and no MIR for call to %s (in %s)' % (callee, where[-80:]))
 
